@@ -35,3 +35,18 @@ prop("C12", "Stream decoding is lossless and its offsets equal the bytes consume
        "quick": {"checks": 20000, "shards": 1, "timeout": 300},
        "thorough": {"checks": 500000, "shards": 2, "timeout": 900}}],
      BASE_ASSUME + ["ref/resp reference RESP encoder"])
+
+STREAM_ASSUME = BASE_ASSUME + ["fake/ RESP double (log-only mode: business commands are recorded with connection, database and execution group, never interpreted)",
+                               "gen/Interpret reference stream model (documented removals: PING, SELECT, MULTI/EXEC, filter.NoRouteCmds list, configured command/db blacklist, sentinel hello, reserved-key commands)",
+                               "ref/resp encoder"]
+
+prop("C01", "Incremental replay applies every source write once, in order, in the right DB", "exploration",
+     "a case = output configuration (batch count/bytes, tickers, txn or ticker checkpointing, blocking/pipelined, resume, db map/targetDb, db and command blacklists) x "
+     "replication stream (SELECT first; binary-argument data commands of ~28 templates, SELECTs, MULTI..EXEC groups of 0-12 commands incl. SELECT inside, PING, REPLCONF GETACK, sentinel hello, admin and blacklisted commands, writes to bookkeeping keys) x "
+     "delivery schedule (byte chunking at arbitrary positions, idle gaps of 0.5-5 ticker periods, 4% with a gap longer than the keep-alive ticker). One uninterrupted RedisOutput.Send against the double; "
+     "non-trivial (measured on the target log) = >=2 SELECTs executed at the target AND a source transaction with data AND a non-UTF-8 argument delivered AND >=4 expected commands; distinct = sha1 of the case. "
+     "Oracle: sequence equality of (db, command, argument bytes) between the target's executed data commands up to the end sentinel and the reference model.",
+     [{"pkg": "c01", "test": "TestC01",
+       "quick": {"checks": 480, "shards": 8, "timeout": 400},
+       "thorough": {"checks": 24000, "shards": 16, "timeout": 3000}}],
+     STREAM_ASSUME, max_inconclusive=0)
